@@ -45,17 +45,32 @@ func harnessC28Flooder() {
 	sig := fSig()
 	wake := verif_nondet_bool()
 	var acted bool
-	var signable []byte
+	// what a valid signature covers: origin, identifier and timestamp (reference layout,
+	// independent of the code under test)
+	signable := make([]byte, 0, 32)
+	signable = append(signable, origin[:]...)
+	for sh := 56; sh >= 0; sh -= 8 {
+		signable = append(signable, byte(id>>uint(sh)))
+	}
+	for sh := 56; sh >= 0; sh -= 8 {
+		signable = append(signable, byte(ts>>uint(sh)))
+	}
+	var got []byte
 	if wake {
 		cmd := &protocol.WakeCommand{OriginAgent: origin, CommandID: id, Timestamp: ts, Signature: sig}
-		signable = cmd.SignableBytes()
+		got = cmd.SignableBytes()
 		acted = f.HandleWakeCommand(fID(0), cmd)
 	} else {
 		cmd := &protocol.SleepCommand{OriginAgent: origin, CommandID: id, Timestamp: ts, Signature: sig}
-		signable = cmd.SignableBytes()
+		got = cmd.SignableBytes()
 		acted = f.HandleSleepCommand(fID(0), cmd)
 	}
 	verif_reach("C28/flooder")
+	covered := len(got) == len(signable)
+	for i := 0; covered && i < len(got); i++ {
+		covered = got[i] == signable[i]
+	}
+	verif_assert(covered, "C28/signature-does-not-cover-origin-identifier-and-timestamp")
 	valid := crypto.Verify(*pub, signable, sig)
 	zero := true
 	for _, b := range sig {
